@@ -180,11 +180,15 @@ func genC13Base(t *rapid.T) World {
 		p := core.Profile{File: "profiles/leafprofile.yaml", Name: "leaf profile"}
 		if rapid.Bool().Draw(t, "pvalidity") {
 			p.Validity = &core.Validity{Duration: rapid.SampledFrom([]string{"1y", "2y6m", "400d", "0d", "0y0m"}).Draw(t, "pdur")}
-			switch rapid.IntRange(0, 3).Draw(t, "pvalidity-shape") {
+			switch rapid.IntRange(0, 5).Draw(t, "pvalidity-shape") {
 			case 0:
 				p.Validity.From = "2020-05-06"
 			case 1:
 				p.Validity = &core.Validity{From: "2020-05-06", Until: "2035-07-08"}
+			case 4:
+				p.Validity = &core.Validity{Until: "2035-07-08"} // an absolute end and nothing else
+			case 5:
+				p.Validity = &core.Validity{From: "2020-05-06"}
 			}
 		}
 		p.Extensions = genProfileExts(t, "px", leaf.Extensions, core.AllKinds, false)
